@@ -21,6 +21,7 @@ vmod!(disc, "disc.rs");
 vmod!(ddb, "ddb.rs");
 vmod!(schedsc, "schedsc.rs");
 vmod!(plcdr, "plcdr.rs");
+vmod!(pure, "pure.rs");
 
 // drivers that need the DDS Security plugins (only in the `security` build: vcheck-sec)
 #[cfg(feature = "security")]
